@@ -49,6 +49,13 @@ def boolean : P Bool := do
   let n ← nat
   pure (n != 0)
 
+/-- an optional trailing natural number (absent = 0) -/
+def optTrailingNat : P Nat := do
+  let ts ← get
+  match ts with
+  | [] => pure 0
+  | _ => nat
+
 def many {β : Type} (p : P β) : Nat → P (List β)
   | 0 => pure []
   | n+1 => do let x ← p; let xs ← many p n; pure (x :: xs)
@@ -408,6 +415,8 @@ def handle (op : String) : P String := do
           pure (some (vx, vt, thr))) else pure none
       let batch ← nat; let epochs ← nat
       let ns ← nat; let script ← many flt ns
+      -- `print` (how often progress is printed): has no effect on what `learn` computes, so the model ignores it
+      let _print ← optTrailingNat
       pure (respond (n.bind (fun n => n.learn xs ts val batch epochs script)) (fun r =>
         s!"{r.trainLoss.length} {r.valLoss.length} {r.valAcc.length} " ++ rV1 r.trainLoss ++ " | " ++ rV1 r.valLoss ++ " | " ++
           rV1 r.valAcc ++ " | " ++ rNetParams r.net ++ " flags " ++ " ".intercalate (r.net.flags.map rBool)))
